@@ -107,6 +107,15 @@ def q_C02(u, prog):
             rec.expect(goal is not None and goal.cv == len(gin), 'R02.b', '%s:%s:goal' % (pn, cn), gc.ploc(prog, c['global']),
                        'dependencies_goal of %s is %s but it has %d input flows' % (cn, goal.s if goal is not None else '?', len(gin)),
                        note='%s: goal = number of input flows' % cn)
+        # a control gather (an input dependency on a range of predecessors) needs the counter mode: one bit per flow cannot count
+        # the members of the range, the task would start after the first one and be scheduled again by each of the others
+        gath = [d for f in gin for d in f['dep_in'] if d in T.deps and T.deps[d]['ctl_gather']]
+        has_flag = 'PARSEC_HAS_CTL_GATHER' in cflags
+        rec.expect(bool(gath) == has_flag and not (gath and mask), 'R02.b', '%s:%s:gather' % (pn, cn), gc.ploc(prog, c['global']),
+                   'class %s %s but is %s%s: with one readiness bit per flow the first predecessor of the range makes the task ready and every other one schedules it again'
+                   % (cn, ('gathers a range of predecessors (%s)' % ', '.join(gath[:3])) if gath else 'has no gathering input', 'in mask mode' if mask else 'in counter mode',
+                      '' if has_flag == bool(gath) else (', PARSEC_HAS_CTL_GATHER %s' % ('set' if has_flag else 'missing'))),
+                   note='%s: %s' % (cn, 'control gather -> counter mode + HAS_CTL_GATHER' if gath else 'no gather, flag absent'))
         any_in = False
         for f in gin:
             fg = u.glob(f['global'])
